@@ -59,11 +59,21 @@ fn graph_req<K: Kmer + Send + Sync>(a: &[&str]) -> String {
     let scores: Vec<(u32, bool)> = if a[6] == "-" { vec![] } else { a[6].split(',').map(|t| { let (x, y) = t.split_once('/').unwrap(); (x.parse().unwrap(), y == "1") }).collect() };
     let mp = g.max_path(|d| scores.get(*d as usize).map(|s| s.0 as f32).unwrap_or(0.0), |d| scores.get(*d as usize).map(|s| s.1).unwrap_or(false));
     let walk = parse_path(a[7]);
-    format!("edges={}|links={}|valid={}|maxpath={}|mpseq={}|wseq={}",
+    // beam search with widths 1, 2, 5 (each call on its own: `states[0]` panics on an empty beam)
+    let beams: Vec<(String, String)> = [1usize, 2, 5].iter().map(|&b| {
+        let r = std::panic::catch_unwind(std::panic::AssertUnwindSafe(|| {
+            let p = g.max_path_beam(b, |d| scores.get(*d as usize).map(|s| s.0 as f32).unwrap_or(0.0), |_| false);
+            let s = seq_digits(&g.sequence_of_path(p.iter()));
+            (show_path(&p), s)
+        }));
+        r.unwrap_or(("panic".into(), "panic".into()))
+    }).collect();
+    format!("edges={}|links={}|valid={}|maxpath={}|mpseq={}|wseq={}|beam={}|bseq={}",
         all_edges(&g),
         if links.is_empty() { "-".to_string() } else { links.join(",") },
         if vex.is_empty() { "-".to_string() } else { vex.join(",") },
-        show_path(&mp), seq_digits(&g.sequence_of_path(mp.iter())), seq_digits(&g.sequence_of_path(walk.iter())))
+        show_path(&mp), seq_digits(&g.sequence_of_path(mp.iter())), seq_digits(&g.sequence_of_path(walk.iter())),
+        beams.iter().map(|x| x.0.clone()).collect::<Vec<_>>().join(";"), beams.iter().map(|x| x.1.clone()).collect::<Vec<_>>().join(";"))
 }
 
 fn prune_req<K: Kmer>(a: &[&str]) -> String {
